@@ -2480,19 +2480,19 @@ static Value eval_call(ASTNode *node, Environment *env) {
     /* Character classification */
     if (strcmp(name, "is_digit") == 0) {
         if (args[0].type != VAL_INT) return create_bool(false);
-        int c = (int)args[0].as.int_val;
+        long long c = args[0].as.int_val;   /* all 64 bits: 2^32 + 'a' is not a letter */
         return create_bool(c >= '0' && c <= '9');
     }
     
     if (strcmp(name, "is_alpha") == 0) {
         if (args[0].type != VAL_INT) return create_bool(false);
-        int c = (int)args[0].as.int_val;
+        long long c = args[0].as.int_val;   /* all 64 bits: 2^32 + 'a' is not a letter */
         return create_bool((c >= 'a' && c <= 'z') || (c >= 'A' && c <= 'Z'));
     }
     
     if (strcmp(name, "is_alnum") == 0) {
         if (args[0].type != VAL_INT) return create_bool(false);
-        int c = (int)args[0].as.int_val;
+        long long c = args[0].as.int_val;   /* all 64 bits: 2^32 + 'a' is not a letter */
         return create_bool((c >= '0' && c <= '9') || 
                            (c >= 'a' && c <= 'z') || 
                            (c >= 'A' && c <= 'Z'));
@@ -2500,19 +2500,19 @@ static Value eval_call(ASTNode *node, Environment *env) {
     
     if (strcmp(name, "is_whitespace") == 0) {
         if (args[0].type != VAL_INT) return create_bool(false);
-        int c = (int)args[0].as.int_val;
+        long long c = args[0].as.int_val;   /* all 64 bits: 2^32 + 'a' is not a letter */
         return create_bool(c == ' ' || c == '\t' || c == '\n' || c == '\r');
     }
     
     if (strcmp(name, "is_upper") == 0) {
         if (args[0].type != VAL_INT) return create_bool(false);
-        int c = (int)args[0].as.int_val;
+        long long c = args[0].as.int_val;   /* all 64 bits: 2^32 + 'a' is not a letter */
         return create_bool(c >= 'A' && c <= 'Z');
     }
     
     if (strcmp(name, "is_lower") == 0) {
         if (args[0].type != VAL_INT) return create_bool(false);
-        int c = (int)args[0].as.int_val;
+        long long c = args[0].as.int_val;   /* all 64 bits: 2^32 + 'a' is not a letter */
         return create_bool(c >= 'a' && c <= 'z');
     }
     
@@ -2536,7 +2536,7 @@ static Value eval_call(ASTNode *node, Environment *env) {
     
     if (strcmp(name, "digit_value") == 0) {
         if (args[0].type != VAL_INT) return create_int(-1);
-        int c = (int)args[0].as.int_val;
+        long long c = args[0].as.int_val;   /* all 64 bits: 2^32 + 'a' is not a letter */
         if (c >= '0' && c <= '9') {
             return create_int(c - '0');
         }
@@ -2545,7 +2545,7 @@ static Value eval_call(ASTNode *node, Environment *env) {
     
     if (strcmp(name, "char_to_lower") == 0) {
         if (args[0].type != VAL_INT) return create_int(args[0].as.int_val);
-        int c = (int)args[0].as.int_val;
+        long long c = args[0].as.int_val;   /* all 64 bits: 2^32 + 'a' is not a letter */
         if (c >= 'A' && c <= 'Z') {
             return create_int(c + 32);
         }
@@ -2554,7 +2554,7 @@ static Value eval_call(ASTNode *node, Environment *env) {
     
     if (strcmp(name, "char_to_upper") == 0) {
         if (args[0].type != VAL_INT) return create_int(args[0].as.int_val);
-        int c = (int)args[0].as.int_val;
+        long long c = args[0].as.int_val;   /* all 64 bits: 2^32 + 'a' is not a letter */
         if (c >= 'a' && c <= 'z') {
             return create_int(c - 32);
         }
